@@ -17,6 +17,10 @@ CHECKS = [
      "text": "Bounded symbolic model checking of the real NestingDepthRule.check with the parsers in the loop: control-structure skeletons (chains of the documented constructs of each language, all function kinds, sibling constructs, second functions) are rendered into Python/TS/JS/Rust while max_nesting_depth and the per-language override are unbounded solver integers, so for each skeleton z3 decides the verdict for every limit (flip at exactly one value), the depth in the message and the header line, against the documented depth 1 + enclosing constructs.",
      "note": "Trusted: z3, proxy ints (counterexamples replayed with plain ints), the renderer and the documented-depth oracle. Skeleton shapes beyond the stated chains, Python match/case, JSX/macros are outside the claim. Known finding C01-python-depth-one-less listed; two defects repaired by fix: commits.",
      "technique": TECH},
+    {"property_id": "C02", "design_ref": "DESIGN.md §4 C02",
+     "text": "Bounded symbolic model checking of the real MagicNumberRule.check with the parsers in the loop: programs with 1-2 numeric literals (int/float/hex/binary/underscore/suffixed/BigInt spellings) placed in every documented flagged and exempt context of each language, booleans/strings/identifiers with digits alongside, allowed_numbers membership forked and max_small_integer an unbounded solver integer; the iff-verdict, exactly-once, line and named value are decided on every path.",
+     "note": "Trusted: z3, proxy ints, the spelling table's reference values and the context table's exempt classification (written from the documentation). Four defects repaired by fix: commits (bool literals, Rust hex f32, TS hex-with-e, BigInt).",
+     "technique": TECH},
 ]
 
 DONE = {int(c['property_id'][1:]) for c in CHECKS} | {19}
